@@ -97,7 +97,7 @@ def runtime_half(ctx, drv, accepted):
                     return
                 kinds = [o] if o in gm.Grower.SUPPORTED else [ctx.rng.choice(["FULLY_CONNECTED", "TANH", "ADD"])]
                 for _try in range(20):   # the random graph inputs must have a rank the operator template accepts
-                    mb, info = gm.gen_model(ctx.rng, n_ops=1, n_subgraphs=1, kinds=kinds, p_unsupported=0.0, const_kinds=gm.BENIGN_KINDS,
+                    mb, info = gm.gen_model(ctx.rng, n_ops=1, n_subgraphs=1, kinds=kinds, p_unsupported=0.0, const_kinds=gm.BENIGN_KINDS, alias_sig=0.0,
                                             allow_dead=0.0)
                     if o in info["subgraphs"][0]["ops"] or o not in gm.Grower.SUPPORTED:
                         break
@@ -122,7 +122,7 @@ def runtime_half(ctx, drv, accepted):
                 r = interp.run(res["out"], {k: v[:1] for k, v in data.items()})
                 ctx.interp_runs += 1
                 if r[0] != "ok":
-                    fail(f"the interpreter does not run the model: {r[0]} {str(r[1])[:160]}", f"accepted-then-rejected-by-runtime:{o}:" + pl.interp_err_class(r))
+                    fail(f"the interpreter does not run the model: {r[0]} {str(r[1])[:160]}", f"accepted-then-rejected-by-runtime:{o}:" + pl.interp_err_class(r, res["out"]))
                     continue
                 fnum.compare_float_modes(ctx, interp, case, res, fail)
                 fnum.compare_static(ctx, interp, case, res, fail)
